@@ -776,3 +776,37 @@ Theorem C05_db_graph_side_condition_from_wf :
   forall g, GraphSim.wf g -> (Graph.capacity g < 1152921504606846976)%Z -> so_graph_ok g.
 Proof. exact StoredDbOpsWf.wf_so_graph_ok. Qed.
 Print Assumptions C05_db_graph_side_condition_from_wf.
+
+(* ---- the programs of the correspondence run (theories/StoredDbOpsQuery.v) ----
+   so_q_insert_node h l / so_q_insert_values h id l are the core operations as the PUBLIC QUERIES issue them inside
+   transaction_mut's storage transaction (insert nodes values [l]: insert_node, reserve_key_value_capacity(id, |l|),
+   insert_key_value for each pair; insert values [l] ids id: reserve_key_value_capacity, insert_or_replace_key_value for each
+   pair) — the programs `hx_core ops` compares byte for byte with the real database.  They keep the database stored and
+   compute the composition of DbModel's functions (mq_*: fold_left of insert_key_value / insert_or_replace_key_value);
+   so_kvs_ok / so_iors_ok: the side conditions at every intermediate database. *)
+From Agdb Require Import StoredDbOpsQuery.
+
+Theorem C05_db_query_insert_node_preserves_stored_db :
+  forall (fl : bool) root d w h l sp,
+    stored_db_w (hp sp) root d w -> so_handles h w -> so_graph_ok (gr d) ->
+    let id := fst (insert_node_db d) in
+    let d2 := reserve_kv (snd (insert_node_db d)) id in
+    so_index_ok (cg_as_u64 id) -> so_kvs_ok d2 id l ->
+    cwp fl (so_q_insert_node h l) sp
+        (fun r sp' => exists h' w', r = CrOk (h', id) /\ stored_db_w (hp sp') root (mq_insert_key_values d2 id l) w' /\
+                                    so_handles h' w' /\ sdepth sp' = sdepth sp /\
+                                    frame (hp sp) (hp sp') (sd_foot root w) (sd_foot root w')).
+Proof. exact so_q_insert_node_stored. Qed.
+Print Assumptions C05_db_query_insert_node_preserves_stored_db.
+
+Theorem C05_db_query_insert_values_preserves_stored_db :
+  forall (fl : bool) root d w h id l sp,
+    stored_db_w (hp sp) root d w -> so_handles h w -> so_index_ok (cg_as_u64 id) ->
+    so_iors_ok (reserve_kv d id) id l ->
+    cwp fl (so_q_insert_values h id l) sp
+        (fun r sp' => exists h' w', r = CrOk h' /\
+                                    stored_db_w (hp sp') root (mq_insert_or_replace_key_values (reserve_kv d id) id l) w' /\
+                                    so_handles h' w' /\ sdepth sp' = sdepth sp /\
+                                    frame (hp sp) (hp sp') (sd_foot root w) (sd_foot root w')).
+Proof. exact so_q_insert_values_stored. Qed.
+Print Assumptions C05_db_query_insert_values_preserves_stored_db.
